@@ -6,7 +6,8 @@ open Gossamer Gossamer.Scale Gossamer.Chain Gossamer.ChainText Gossamer.C14
 
 /- line:   `<kind> <value text>` | `const <name>` | `idx <vdt>` | `prert <babe digest>` |
            `hcache <header>;<number>`
-   output: `enc=<hex> rt=ok|rt=err|dec=<text> [hash=<hex>]`, see harness/C14/c14_test.go.
+   output: `enc=<hex> rt=ok|rt=err|dec=<text> [hard=ok] [hash=<hex>]` (`hard=ok`: the harness's
+   stale-receiver / aliasing / input-mutation checks passed; the model has no such effects), see harness/C14/c14_test.go.
    `spec=` is what the specification demands (reference encoder of Lib/ChainTypes.lean +
    round trip), printed when the model of the Go code differs from it. -/
 
@@ -49,7 +50,7 @@ def kindOf : String → Option Kind
 def h256hex (b : Bytes) : String := hex (Blake2b.hash256 b)
 
 def specOut (k : Kind) (e : Bytes) : String :=
-  s!"enc={hex e}" ++ (if k.dec then " rt=ok" else "") ++ (if k.hash then " hash=" ++ h256hex e else "")
+  s!"enc={hex e}" ++ (if k.dec then " rt=ok hard=ok" else "") ++ (if k.hash then " hash=" ++ h256hex e else "")
 
 def scaleCase (k : Kind) (text : String) : String :=
   match parseVal k.spec text with
@@ -62,7 +63,7 @@ def scaleCase (k : Kind) (text : String) : String :=
       let rt :=
         if !k.dec then ""
         else match unmarshal k.go e with
-          | some (v', _) => if v' == v then " rt=ok" else " dec=" ++ showVal k.go v'
+          | some (v', _) => (if v' == v then " rt=ok" else " dec=" ++ showVal k.go v') ++ " hard=ok"
           | none => " rt=err"
       let m := s!"enc={hex e}{rt}" ++ (if k.hash then " hash=" ++ h256hex e else "")
       if m == so then m else m ++ "\tspec=" ++ so ++ "\tkf=uint-5to7"
@@ -87,11 +88,11 @@ def justCase (n : CTy) (bits : Nat) (text : String) : String :=
     if (ancestryNumbers v).any (fun x => 2 ^ bits ≤ x) then "unrep"
     else
       let se := enc sty v
-      let so := s!"enc={hex se} rt=ok"
+      let so := s!"enc={hex se} rt=ok hard=ok"
       if wtc (goFgJustification n) v then
         let e := marshal (goFgJustification n) v
         let rt := match decodeFgJust n e with
-          | .ok v' => if v' == v then " rt=ok" else " dec=" ++ showVal sty v'
+          | .ok v' => (if v' == v then " rt=ok" else " dec=" ++ showVal sty v') ++ " hard=ok"
           | .err => " rt=err"
           | .panic => " rt=panic"
         let m := s!"enc={hex e}{rt}"
@@ -149,7 +150,7 @@ def breqCase (text : String) : String :=
     let e := m.encode
     match BlockRequestMessage.decode e with
     | none => s!"enc={hex e} rt=err"
-    | some m' => if m' = m then s!"enc={hex e} rt=ok" else s!"enc={hex e} dec={showVal breqTy (valOfReq m')}"
+    | some m' => (if m' = m then s!"enc={hex e} rt=ok" else s!"enc={hex e} dec={showVal breqTy (valOfReq m')}") ++ " hard=ok"
 
 def optBytesOfVal : Val → Option Bytes
   | .some (.bytes b) => some b
@@ -198,12 +199,12 @@ def brespCase (text : String) : String :=
       | some ds =>
         let e := responseEncode ds
         let want := ds.map BlockDataM.norm
-        let so := s!"enc={hex e} " ++ (if showBlocks want == text then "rt=ok" else "dec=" ++ showBlocks want)
+        let so := s!"enc={hex e} " ++ (if showBlocks want == text then "rt=ok" else "dec=" ++ showBlocks want) ++ " hard=ok"
         let m := match responseDecode e with
           | none => s!"enc={hex e} rt=err"
           | some ds' =>
             let t := showBlocks ds'
-            if t == text then s!"enc={hex e} rt=ok" else s!"enc={hex e} dec={t}"
+            (if t == text then s!"enc={hex e} rt=ok" else s!"enc={hex e} dec={t}") ++ " hard=ok"
         if m == so then m else m ++ "\tspec=" ++ so ++ "\tkf=uint-5to7"
   | _ => "bad-op"
 
